@@ -82,6 +82,17 @@ mod harnesses {
         let r = capped_exponential(initial, m, attempt, if has_cap { Some(cap) } else { None });
         if has_cap { assert!(r <= cap); }
     }
+    /// C14: a zero initial interval stays zero for every attempt and multiplier (0 x multiplier^attempt == 0, also once the power
+    /// has overflowed to +inf), unless the cap itself is zero
+    #[kani::proof]
+    fn backoff_zero_initial_stays_zero() {
+        let m = any_multiplier();
+        let attempt: usize = kani::any();
+        let has_cap: bool = kani::any();
+        let cap = any_duration();
+        let r = capped_exponential(Duration::ZERO, m, attempt, if has_cap { Some(cap) } else { None });
+        assert!(r == Duration::ZERO);
+    }
     /// C14: jittered delay never panics (range is non-empty and finite, conversion in range) for every base delay and factor in [0,1].
     #[kani::proof]
     fn jitter_total() {
